@@ -194,7 +194,7 @@ def _drive(bins, level, seed, runs, n, path):
 
 def _direction_b(ctx, bins, tier):
     plans = [("lo", 6, 60), ("hi", 4, 150)] if tier == "quick" else \
-            [("lo", 30, 80), ("lo", 4, 600), ("hi", 12, 200), ("hi", 3, 1200), ("hi", 40, 25)]
+            [("lo", 30, 80), ("lo", 4, 600), ("hi", 12, 200), ("hi", 3, 500), ("hi", 40, 25)]
     for i, (level, runs, n) in enumerate(plans):
         path = os.path.join(ctx.workdir, "trace_%s_%d.ndjson" % (level, i))
         seed = ctx.seed * 100 + i
